@@ -61,7 +61,7 @@ Definition entry (g : K -> bool) (y d : K) : option K :=
 Definition guard (k : kind) : K -> bool :=
   match k with Symbolic => nonzero | _ => far F end.
 
-(* compare = np.equal if Y is a sympy matrix else np.isclose *)
+(* shared = np.equal(..) if Y is a sympy matrix else np.isclose(.., atol=atol)   (fix e4d96a1) *)
 Definition cmp (k : kind) : K -> K -> bool :=
   match k with Symbolic => keqb F | _ => close F end.
 
